@@ -166,8 +166,11 @@ private:
       if(!WrapperType::allowTargetResize)
         throw std::runtime_error("Non-matching dimensions in SU_vector assignment");
       //can resize
-      if(isinit)
+      if(isinit){
         deallocate_mem();
+        isinit=false;
+        components=nullptr;
+      }
       dim=proxy.suv1.dim;
       size=proxy.suv1.size;
       if(proxy.mayStealArg1()){ //if the operation is component-wise and suv1 is an rvalue
@@ -191,7 +194,14 @@ private:
         }
       }
       else{
-        alloc_aligned(dim,size,components,ptr_offset);
+        const unsigned int new_dim=dim, new_size=size;
+        //remain a valid, empty vector if the allocation fails
+        dim=0;
+        size=0;
+        components=nullptr;
+        alloc_aligned(new_dim,new_size,components,ptr_offset);
+        dim=new_dim;
+        size=new_size;
         isinit=true;
       }
     }
